@@ -16,6 +16,7 @@ type EngProfile struct {
 	NoNeg       bool
 	OtherNet    bool // a second network on the same database holds other tuples (C06)
 	Conforming  bool // stores conform to the declared types (tuples only on related relations, subjects per type)
+	Wide        bool // every case has a very wide node (see widen)
 }
 
 var nsPool = []string{"User", "Group", "Doc", "Folder", "a-b", "a"}
@@ -281,12 +282,121 @@ func genQuery(r *rand.Rand, nss []*namespace.Namespace, ts []Tup) Tup {
 	return q
 }
 
+// ttuOf finds a tuple-to-subject-set child of some permission: (namespace, permission,
+// traversed relation, relation evaluated on the parents).
+func ttuOf(r *rand.Rand, nss []*namespace.Namespace) (ns, perm, rel, crel string, ok bool) {
+	type hit struct{ ns, perm, rel, crel string }
+	var hits []hit
+	var walk func(ns, perm string, c ast.Child)
+	walk = func(ns, perm string, c ast.Child) {
+		switch c := c.(type) {
+		case *ast.TupleToSubjectSet:
+			hits = append(hits, hit{ns, perm, c.Relation, c.ComputedSubjectSetRelation})
+		case *ast.SubjectSetRewrite:
+			for _, ch := range c.Children {
+				walk(ns, perm, ch)
+			}
+		case *ast.InvertResult:
+			walk(ns, perm, c.Child)
+		}
+	}
+	for _, n := range nss {
+		for _, rel := range n.Relations {
+			if rel.SubjectSetRewrite != nil {
+				walk(n.Name, rel.Name, rel.SubjectSetRewrite)
+			}
+		}
+	}
+	if len(hits) == 0 {
+		return "", "", "", "", false
+	}
+	h := pick(r, hits)
+	return h.ns, h.perm, h.rel, h.crel, true
+}
+
+// widen gives the case a very wide node, so that the internal page loops are crossed:
+// more than 1000 subject sets on the queried object#relation (the traverser fetches
+// subject sets in pages of 1000) or more than 100 parents on a traversed relation (the
+// tuple-to-subject-set listing pages by 100), with the subject a member behind one of
+// them (two times in three) - often one right at a page boundary of the storage order,
+// which the harness cannot choose but 1001..1003 / 101..103 rows make likely to matter.
+func widen(r *rand.Rand, c *EngCase) {
+	const base = 1000
+	// the wide node is an object of its own that nothing points to: the reference semantics
+	// is evaluated per path and would otherwise visit the wide node once per path of the
+	// small random graph that leads to it
+	const wideObj = 900
+	sub := c.Query.Sub
+	small := append([]Tup(nil), c.Tuples...)
+	if ns, perm, rel, crel, ok := ttuOf(r, c.NSs); ok && r.Intn(2) == 0 {
+		n := pick(r, []int{101, 102, 103, 130, 200, 201, 250})
+		pns := pick(r, c.NSs).Name
+		for _, t := range small {
+			if t.NS == ns && t.Rel == rel && t.Sub.IsSet {
+				pns = t.Sub.NS
+				break
+			}
+		}
+		for k := 0; k < n; k++ {
+			c.Tuples = append(c.Tuples, Tup{NS: ns, Obj: wideObj, Rel: rel, Sub: Sub{IsSet: true, NS: pns, Obj: base + k, Rel: ""}})
+		}
+		if r.Intn(3) != 0 {
+			c.Tuples = append(c.Tuples, Tup{NS: pns, Obj: base + r.Intn(n), Rel: crel, Sub: sub})
+		}
+		for _, t := range small {
+			// a few parents inside the small random graph
+			if t.NS == ns && t.Rel == rel && t.Sub.IsSet && r.Intn(3) == 0 {
+				c.Tuples = append(c.Tuples, Tup{NS: ns, Obj: wideObj, Rel: rel, Sub: t.Sub})
+			}
+		}
+		c.Query.NS, c.Query.Obj, c.Query.Rel = ns, wideObj, perm
+		c.Width = 100
+		return
+	}
+	n := pick(r, []int{1001, 1001, 1002, 1003, 1010, 2001})
+	gns, grel := pick(r, c.NSs).Name, pick(r, relPool)
+	for _, t := range small {
+		if t.Sub.IsSet && t.Sub.Rel != "" {
+			gns, grel = t.Sub.NS, t.Sub.Rel
+			break
+		}
+	}
+	c.Query.Obj = wideObj
+	q := c.Query
+	for k := 0; k < n; k++ {
+		c.Tuples = append(c.Tuples, Tup{NS: q.NS, Obj: q.Obj, Rel: q.Rel, Sub: Sub{IsSet: true, NS: gns, Obj: base + k, Rel: grel}})
+	}
+	if r.Intn(3) != 0 {
+		c.Tuples = append(c.Tuples, Tup{NS: gns, Obj: base + r.Intn(n), Rel: grel, Sub: sub})
+	}
+	for _, t := range small {
+		if t.Sub.IsSet && r.Intn(6) == 0 {
+			c.Tuples = append(c.Tuples, Tup{NS: q.NS, Obj: q.Obj, Rel: q.Rel, Sub: t.Sub})
+		}
+	}
+	c.Width = 5000
+}
+
 func genEngCase(r *rand.Rand, p EngProfile) *EngCase {
 	c := &EngCase{PageSize: 100}
+	if r.Intn(3) == 0 {
+		// small pages for the tuple-to-subject-set listing (injected by the harness's manager wrapper)
+		c.PageSize = 1 + r.Intn(3)
+	}
 	c.NSs = genConfig(r, p)
 	c.Tuples = genTuples(r, c.NSs, p.Conforming || r.Intn(3) == 0)
 	c.Query = genQuery(r, c.NSs, c.Tuples)
 	c.Strict = r.Intn(3) == 0
+	defer func() {
+		if p.Wide {
+			if c.GDepth < 4 {
+				c.GDepth = 4 + r.Intn(4)
+			}
+			c.RDepth = 0
+			c.Width = 100
+			widen(r, c)
+		}
+	}()
 	if p.LimitsLoose && r.Intn(4) != 0 {
 		c.GDepth = 5 + r.Intn(5)
 		c.Width = 100
